@@ -17,16 +17,21 @@
 //! After EVERY step the harness checks from outside what the planned `cfg(risechain_revm_verif)` hook would assert inside
 //! `Interpreter::step`: `program_counter() < bytecode.len()`; a failure is the reply `oob-code`. A Rust panic is the reply `panic`.
 use crate::*;
+use revm::interpreter::analysis::{validate_eof_inner, CodeType};
 use revm::interpreter::{
-    opcode::{make_instruction_table, InstructionTable},
+    opcode::{make_instruction_table, InstructionTable, OPCODE_INFO_JUMPTABLE},
     AccountLoad, CallOutcome, CallScheme, CallValue, Contract, CreateOutcome, CreateScheme, Eip7702CodeLoad, Gas, Host,
-    InstructionResult, Interpreter, InterpreterAction, InterpreterResult, SStoreResult, SelfDestructResult, SharedMemory,
-    StateLoad,
+    EOFCreateKind, InstructionResult, Interpreter, InterpreterAction, InterpreterResult, SStoreResult,
+    SelfDestructResult, SharedMemory, StateLoad,
 };
 use revm::primitives::{
     eof::{EofBody, TypesSection},
-    keccak256, spec_to_generic, Address, BlobExcessGasAndPrice, Bytecode, Bytes, Env, Log, SpecId, B256, U256,
+    keccak256, spec_to_generic, AccessListItem, AccountInfo, Address, BlobExcessGasAndPrice, Bytecode, Bytes, Env, Log,
+    SpecId, TxKind, B256, U256,
 };
+use revm::db::{CacheDB, EmptyDB};
+use revm::interpreter::{CallInputs, CreateInputs, EOFCreateInputs};
+use revm::{inspector_handle_register, Evm, EvmContext, Inspector};
 use std::sync::Arc;
 use std::cell::{Cell, RefCell};
 use std::panic::AssertUnwindSafe;
@@ -510,6 +515,8 @@ pub struct EofParams {
     pub types: Vec<(u8, u8, u16)>,
     pub data: Vec<u8>,
     pub data_size: u16,
+    pub containers: Vec<Vec<u8>>,
+    pub init: bool,
 }
 
 #[derive(Clone, Debug)]
@@ -575,8 +582,9 @@ impl Params {
             Some(e) => {
                 let secs: Vec<String> = e.sections.iter().map(|c| hxb(c)).collect();
                 let types: Vec<String> = e.types.iter().map(|(i, o, m)| format!("{i}.{o}.{m}")).collect();
+                let conts: Vec<String> = e.containers.iter().map(|c| hxb(c)).collect();
                 format!(
-                    "begin eof {} {} {} {} {} {} {} {} {} {} {} {}",
+                    "begin eof {} {} {} {} {} {} {} {} {} {} {} {} {} {}",
                     self.spec,
                     self.gas,
                     b01(self.is_static),
@@ -584,6 +592,8 @@ impl Params {
                     if types.is_empty() { "-".to_string() } else { types.join("+") },
                     hxb(&e.data),
                     e.data_size,
+                    if conts.is_empty() { "-".to_string() } else { conts.join("+") },
+                    b01(e.init),
                     hxb(&self.input),
                     hx(self.target),
                     hx(self.caller),
@@ -594,7 +604,7 @@ impl Params {
         }
     }
     fn parse_eof(t: &[&str]) -> Option<Params> {
-        if t.len() != 12 {
+        if t.len() != 14 {
             return None;
         }
         let sections: Vec<Vec<u8>> =
@@ -624,9 +634,15 @@ impl Params {
         if data_size > 65535 || data.len() > 0xffff {
             return None;
         }
-        let legacy: Vec<&str> = vec![t[0], t[1], t[2], "-", t[7], t[8], t[9], t[10], t[11]];
+        let containers: Vec<Vec<u8>> =
+            if t[7] == "-" { vec![] } else { t[7].split('+').map(parse_bytes).collect::<Option<Vec<_>>>()? };
+        if containers.len() > 256 || containers.iter().any(|c| c.is_empty() || c.len() > 0xffff) {
+            return None;
+        }
+        let init = parse_bool(t[8])?;
+        let legacy: Vec<&str> = vec![t[0], t[1], t[2], "-", t[9], t[10], t[11], t[12], t[13]];
         let mut p = Params::parse(&legacy)?;
-        p.eof = Some(EofParams { sections, types, data, data_size: data_size as u16 });
+        p.eof = Some(EofParams { sections, types, data, data_size: data_size as u16, containers, init });
         Some(p)
     }
     fn bytecode(&self) -> Bytecode {
@@ -640,7 +656,7 @@ impl Params {
                         .map(|(i, o, m)| TypesSection { inputs: *i, outputs: *o, max_stack_size: *m })
                         .collect(),
                     code_section: e.sections.iter().map(|c| Bytes::from(c.clone())).collect(),
-                    container_section: vec![],
+                    container_section: e.containers.iter().map(|c| Bytes::from(c.clone())).collect(),
                     data_section: Bytes::from(e.data.clone()),
                     is_data_filled: true,
                 };
@@ -648,6 +664,18 @@ impl Params {
                 eof.header.data_size = e.data_size;
                 Bytecode::Eof(Arc::new(eof))
             }
+        }
+    }
+    /// does the real `validate_eof_inner` accept the container (as a runtime or as an init container)?
+    pub fn validated(&self) -> bool {
+        match self.bytecode() {
+            Bytecode::Eof(eof) => {
+                let e: &revm::primitives::Eof = &eof;
+                [None, Some(CodeType::ReturnOrStop), Some(CodeType::ReturnContract)].into_iter().any(|t| {
+                    std::panic::catch_unwind(AssertUnwindSafe(|| validate_eof_inner(e, t).is_ok())).unwrap_or(false)
+                })
+            }
+            _ => false,
         }
     }
     fn interpreter(&self) -> Interpreter {
@@ -761,8 +789,8 @@ fn state_str(interp: &Interpreter) -> String {
     })
 }
 
-/// EOF mode: would the next instruction read an immediate outside the section, or is it one the model does not
-/// cover in EOF mode (EOFCREATE, RETURNCONTRACT, EXT*CALL; CODESIZE/CODECOPY are `assume!` violations there)?
+/// EOF mode: would the next instruction read an immediate outside the section (or violate the `assume!` of
+/// CODESIZE / CODECOPY)?
 /// The interpreter itself checks none of this (validation does); executing it would be undefined behaviour.
 fn eof_danger(interp: &Interpreter) -> bool {
     if !interp.is_eof {
@@ -776,7 +804,7 @@ fn eof_danger(interp: &Interpreter) -> bool {
     let op = code[pc];
     let imm = match op {
         0xe0 | 0xe1 | 0xe3 | 0xe5 | 0xd1 => 2,
-        0xe6 | 0xe7 | 0xe8 => 1,
+        0xe6 | 0xe7 | 0xe8 | 0xec | 0xee => 1,
         0xe2 => {
             if pc + 1 >= code.len() {
                 return true;
@@ -784,7 +812,8 @@ fn eof_danger(interp: &Interpreter) -> bool {
             1 + (code[pc + 1] as usize + 1) * 2
         }
         0x60..=0x7f => (op - 0x5f) as usize,
-        0xec | 0xee | 0xf8 | 0xf9 | 0xfb | 0x38 | 0x39 => return true,
+        // CODESIZE / CODECOPY violate an `assume!` in EOF mode (undefined behaviour in a release build)
+        0x38 | 0x39 => return true,
         _ => 0,
     };
     if pc + 1 + imm > code.len() {
@@ -850,6 +879,18 @@ fn action_str(a: &InterpreterAction) -> Option<String> {
                 len_dig(&inputs.init_code)
             ))
         }
+        InterpreterAction::EOFCreate { inputs } => match &inputs.kind {
+            EOFCreateKind::Opcode { initcode, input, created_address } => Some(format!(
+                "eofcreate:{}:{}:{}:{}:{}:{}",
+                hxa(inputs.caller),
+                hxa(*created_address),
+                hx(inputs.value),
+                inputs.gas_limit,
+                len_dig(&initcode.raw),
+                len_dig(input)
+            )),
+            _ => None,
+        },
         _ => None,
     }
 }
@@ -858,6 +899,9 @@ impl Session {
     pub fn new(p: &Params) -> Session {
         let mut interp = p.interpreter();
         interp.shared_memory = SharedMemory::new();
+        if p.eof.as_ref().map(|e| e.init).unwrap_or(false) {
+            interp.set_is_eof_init();
+        }
         Session {
             interp,
             host: ScriptHost { env: p.env.env(), resp: Default::default(), called: None },
@@ -897,7 +941,10 @@ impl Session {
                 s.push_str(&format!(" act={a}"));
             }
         }
-        if matches!(self.interp.instruction_result, InstructionResult::Return | InstructionResult::Revert) {
+        if matches!(
+            self.interp.instruction_result,
+            InstructionResult::Return | InstructionResult::Revert | InstructionResult::ReturnContract
+        ) {
             if let InterpreterAction::Return { result } = &self.interp.next_action {
                 s.push_str(&format!(" out={}", len_dig(&result.output)));
             }
@@ -959,6 +1006,11 @@ impl Session {
                 self.interp.insert_create_outcome(outcome);
                 true
             }
+            InterpreterAction::EOFCreate { .. } => {
+                let outcome = CreateOutcome::new(c.interp_result(), c.address.map(addr_of));
+                self.interp.insert_eofcreate_outcome(outcome);
+                true
+            }
             _ => false,
         }));
         match r {
@@ -986,10 +1038,12 @@ impl Session {
 /// executor: a pure function of the request lines
 pub struct Exec {
     sess: Option<Session>,
+    /// the verdict of the real validator on the container of the running EOF session
+    validated: Option<bool>,
 }
 impl Exec {
     pub fn new() -> Exec {
-        Exec { sess: None }
+        Exec { sess: None, validated: None }
     }
     pub fn line(&mut self, line: &str) -> String {
         let t: Vec<&str> = line.split(' ').collect();
@@ -1001,6 +1055,7 @@ impl Exec {
                         Ok(s) => {
                             let out = format!("ok len={} pc={}", s.interp.bytecode.len(), s.interp.program_counter());
                             self.sess = Some(s);
+                            self.validated = None;
                             out
                         }
                         Err(_) => {
@@ -1021,18 +1076,27 @@ impl Exec {
                         Ok(s) => {
                             let out = format!("ok len={} pc={}", s.interp.bytecode.len(), s.interp.program_counter());
                             self.sess = Some(s);
+                            self.validated = Some(p.validated());
                             out
                         }
                         Err(_) => {
                             self.sess = None;
+                            self.validated = None;
                             "panic".into()
                         }
                     }
                 }
                 None => {
                     self.sess = None;
+                    self.validated = None;
                     "bad-op".into()
                 }
+            },
+            // `i wf <tag> <v>`: `<v>` = the verdict of the real validator on the container of this session (checked
+            // here); the model answers `wf-gap` when `<v>` = 1 and its well-formedness predicate says no
+            ["i", "wf", _tag, v] => match (&self.sess, self.validated, parse_bool(v)) {
+                (Some(s), Some(mine), Some(v)) if s.interp.is_eof && mine == v => format!("wfok v={}", b01(v)),
+                _ => "bad-op".into(),
             },
             ["i", "s", _tag, resp] => match (&mut self.sess, Resp::parse(resp)) {
                 (Some(s), Some(r)) if !s.dead && !s.pending_action() => s.step(r),
@@ -1485,7 +1549,7 @@ fn gen_params(r: &mut Rng, code: Vec<u8>) -> Params {
 /// the answer the scripted host will give during the next instruction
 fn gen_resp(r: &mut Rng, op: Option<u8>) -> Resp {
     let Some(op) = op else { return Resp::default() };
-    let is_host = matches!(op, 0x31 | 0x3b | 0x3c | 0x3f | 0x40 | 0x47 | 0x54 | 0x55 | 0x5c | 0x5d | 0xa0..=0xa4 | 0xff | 0xf1 | 0xf2 | 0xf4 | 0xfa);
+    let is_host = matches!(op, 0x31 | 0x3b | 0x3c | 0x3f | 0x40 | 0x47 | 0x54 | 0x55 | 0x5c | 0x5d | 0xa0..=0xa4 | 0xff | 0xf1 | 0xf2 | 0xf4 | 0xfa | 0xf8 | 0xf9 | 0xfb);
     if !is_host && !r.chance(1, 50) {
         return Resp::default();
     }
@@ -1573,6 +1637,16 @@ fn keccak_resp(s: &Session) -> Resp {
     Resp { ok: true, word: U256::from_be_bytes(keccak256(&data).0), ..Default::default() }
 }
 
+/// the address EOFCREATE will compute (`target.create2(salt, keccak256(container))`), so that the request line carries it
+fn eofcreate_resp(s: &Session) -> Resp {
+    let pc = s.interp.program_counter();
+    let (Some(salt), Some(eof)) = (peek(&s.interp, 1), s.interp.eof()) else { return Resp::default() };
+    let Some(idx) = s.interp.bytecode.get(pc + 1) else { return Resp::default() };
+    let Some(sub) = eof.body.container_section.get(*idx as usize) else { return Resp::default() };
+    let a = s.interp.contract.target_address.create2(salt.to_be_bytes::<32>(), keccak256(sub));
+    Resp { ok: true, word: U256::from_be_slice(a.as_slice()), ..Default::default() }
+}
+
 /// one lockstep case: `begin`, then instructions until the frame ends / `max_steps`
 fn gen_case(r: &mut Rng, p: &Params, max_steps: usize, out: &mut Out, lines: &mut Vec<String>) {
     let case_id = lines.len();
@@ -1582,6 +1656,13 @@ fn gen_case(r: &mut Rng, p: &Params, max_steps: usize, out: &mut Out, lines: &mu
     lines.push(b);
     if !rep.starts_with("ok ") {
         return;
+    }
+    if p.eof.is_some() {
+        let v = ex.validated.unwrap_or(false);
+        out.count(if v { "eof:validated" } else { "eof:not-validated" });
+        let l = format!("i wf {}.wf {}", case_id, b01(v));
+        ex.line(&l);
+        lines.push(l);
     }
     let mut steps = 0;
     loop {
@@ -1593,9 +1674,20 @@ fn gen_case(r: &mut Rng, p: &Params, max_steps: usize, out: &mut Out, lines: &mu
             let gl = match &sess.interp.next_action {
                 InterpreterAction::Call { inputs } => inputs.gas_limit,
                 InterpreterAction::Create { inputs } => inputs.gas_limit,
+                InterpreterAction::EOFCreate { inputs } => inputs.gas_limit,
                 _ => 0,
             };
-            let c = gen_child(r, gl);
+            let mut c = gen_child(r, gl);
+            if matches!(sess.interp.next_action, InterpreterAction::EOFCreate { .. }) {
+                if r.chance(1, 2) {
+                    c.result = InstructionResult::ReturnContract;
+                }
+                // `ReturnContract` without an address is the `expect("EOF Address")` of insert_eofcreate_outcome;
+                // the frame machine always supplies it
+                if c.result == InstructionResult::ReturnContract && c.address.is_none() {
+                    c.address = Some(gen_addr(r));
+                }
+            }
             let l = format!("i ret {}.r{} {}", case_id, lines.len(), c.token());
             let rep = ex.line(&l);
             lines.push(l);
@@ -1617,7 +1709,13 @@ fn gen_case(r: &mut Rng, p: &Params, max_steps: usize, out: &mut Out, lines: &mu
             break;
         }
         let op = sess.peek_opcode();
-        let resp = if op == Some(0x20) { keccak_resp(sess) } else { gen_resp(r, op) };
+        let resp = if op == Some(0x20) {
+            keccak_resp(sess)
+        } else if op == Some(0xec) && sess.interp.is_eof {
+            eofcreate_resp(sess)
+        } else {
+            gen_resp(r, op)
+        };
         let l = format!("i s {}.{} {}", case_id, steps, resp.token());
         let rep = ex.line(&l);
         lines.push(l);
@@ -1737,7 +1835,7 @@ fn eof_operands(op: u8, r: &mut Rng) -> Vec<U256> {
     }
 }
 
-fn gen_eof_section(r: &mut Rng, idx: usize, nsec: usize) -> Vec<u8> {
+fn gen_eof_section(r: &mut Rng, idx: usize, nsec: usize, ncont: usize, init: bool) -> Vec<u8> {
     let k = r.range(2, 14) as usize;
     let mut items: Vec<EItem> = vec![];
     for _ in 0..k {
@@ -1776,6 +1874,30 @@ fn gen_eof_section(r: &mut Rng, idx: usize, nsec: usize) -> Vec<u8> {
                 items.push(EItem::Raw(vec![op, imm]));
             }
             6 if idx > 0 => items.push(EItem::Raw(vec![0xe4])),
+            7 => {
+                // EXTCALL / EXTDELEGATECALL / EXTSTATICCALL
+                let op = *r.pick(&[0xf8u8, 0xf9, 0xfb]);
+                let mut c = vec![];
+                if op == 0xf8 {
+                    push_word(&mut c, if r.chance(1, 2) { U256::ZERO } else { r.word() }, r);
+                }
+                push_word(&mut c, gen_mem_word(r), r);
+                push_word(&mut c, gen_mem_word(r), r);
+                push_word(&mut c, if r.chance(1, 8) { r.word() } else { gen_addr(r) }, r);
+                c.push(op);
+                items.push(EItem::Raw(c));
+            }
+            8 if ncont > 0 || r.chance(1, 10) => {
+                // EOFCREATE: value, salt, data_offset, data_size on the stack (value on top)
+                let mut c = vec![];
+                push_word(&mut c, gen_mem_word(r), r);
+                push_word(&mut c, gen_mem_word(r), r);
+                push_word(&mut c, r.word(), r);
+                push_word(&mut c, if r.chance(1, 2) { U256::ZERO } else { r.word() }, r);
+                let i = if r.chance(1, 15) { r.next() as u8 } else { r.below(ncont.max(1) as u64) as u8 };
+                c.extend_from_slice(&[0xec, i]);
+                items.push(EItem::Raw(c));
+            }
             _ => {
                 let op = *r.pick(EOF_PLAIN_OPS);
                 let mut c = vec![];
@@ -1791,6 +1913,15 @@ fn gen_eof_section(r: &mut Rng, idx: usize, nsec: usize) -> Vec<u8> {
     }
     // terminator
     items.push(EItem::Raw(match r.below(6) {
+        _ if init && ncont > 0 && r.chance(1, 2) => {
+            // RETURNCONTRACT: aux_data_offset (top), aux_data_size
+            let mut c = vec![];
+            push_word(&mut c, match r.below(4) { 0 => U256::ZERO, 1 => U256::from(0xffff), _ => gen_mem_word(r) }, r);
+            push_word(&mut c, gen_mem_word(r), r);
+            let i = if r.chance(1, 15) { r.next() as u8 } else { r.below(ncont as u64) as u8 };
+            c.extend_from_slice(&[0xee, i]);
+            c
+        }
         0 if idx > 0 => vec![0xe4],
         1 => {
             let t = r.below(nsec as u64);
@@ -1835,10 +1966,109 @@ fn gen_eof_section(r: &mut Rng, idx: usize, nsec: usize) -> Vec<u8> {
     code
 }
 
+/// a sub-container: usually a decodable one with its data section filled
+fn gen_subcontainer(r: &mut Rng) -> Vec<u8> {
+    if r.chance(1, 25) {
+        return rbytes(r, 1, 40);
+    }
+    let nsec = r.range(1, 2) as usize;
+    let body = EofBody {
+        types_section: (0..nsec).map(|_| TypesSection { inputs: 0, outputs: 0x80, max_stack_size: 0 }).collect(),
+        code_section: (0..nsec).map(|_| Bytes::from(vec![if r.chance(1, 2) { 0x00 } else { 0xfe }])).collect(),
+        container_section: vec![],
+        data_section: Bytes::from(rbytes(r, 0, 40)),
+        is_data_filled: true,
+    };
+    let mut e = body.into_eof();
+    if r.chance(1, 12) {
+        // declared data longer than what is there: `is_data_filled = false` after decoding
+        e.header.data_size += r.range(1, 9) as u16;
+        return e.encode_slow().to_vec();
+    }
+    e.raw.to_vec()
+}
+
+/// EOF containers aimed at one of EOFCREATE / RETURNCONTRACT / EXTCALL / EXTDELEGATECALL / EXTSTATICCALL: operands in
+/// place, ample gas, decodable sub-containers, and a few instructions that look at the result afterwards
+fn gen_eof_directed(r: &mut Rng) -> Params {
+    let ncont = r.range(1, 3) as usize;
+    let containers: Vec<Vec<u8>> = (0..ncont).map(|_| gen_subcontainer(r)).collect();
+    let which = r.below(5);
+    let init = which == 1;
+    let small = |r: &mut Rng| U256::from(*r.pick(&[0u64, 1, 31, 32, 33, 64, 100]));
+    let mut c = vec![];
+    // something in memory first
+    if r.chance(1, 2) {
+        push_word(&mut c, r.word(), r);
+        push_word(&mut c, small(r), r);
+        c.push(0x52);
+    }
+    let after: &[u8] = &[0x3d, 0x5f, 0xf7, 0x59, 0x00]; // RETURNDATASIZE PUSH0 RETURNDATALOAD MSIZE STOP
+    match which {
+        0 => {
+            let sz = if r.chance(1, 6) { gen_mem_word(r) } else { small(r) };
+            let off = if r.chance(1, 6) { gen_mem_word(r) } else { small(r) };
+            push_word(&mut c, sz, r);
+            push_word(&mut c, off, r);
+            push_word(&mut c, r.word(), r);
+            push_word(&mut c, if r.chance(1, 2) { U256::ZERO } else { r.word() }, r);
+            c.extend_from_slice(&[0xec, if r.chance(1, 12) { ncont as u8 } else { r.below(ncont as u64) as u8 }]);
+            c.extend_from_slice(after);
+        }
+        1 => {
+            let sz = match r.below(6) {
+                0 => U256::ZERO,
+                1 => U256::from(0xffffu64),
+                2 => U256::from(0x10000u64),
+                3 => gen_mem_word(r),
+                _ => small(r),
+            };
+            push_word(&mut c, sz, r);
+            push_word(&mut c, if r.chance(1, 6) { gen_mem_word(r) } else { small(r) }, r);
+            c.extend_from_slice(&[0xee, if r.chance(1, 12) { ncont as u8 } else { r.below(ncont as u64) as u8 }]);
+        }
+        _ => {
+            let op = [0xf8u8, 0xf9, 0xfb][(which - 2) as usize];
+            if op == 0xf8 {
+                push_word(&mut c, if r.chance(1, 2) { U256::ZERO } else { U256::from(r.below(1000)) }, r);
+            }
+            push_word(&mut c, if r.chance(1, 6) { gen_mem_word(r) } else { small(r) }, r);
+            push_word(&mut c, if r.chance(1, 6) { gen_mem_word(r) } else { small(r) }, r);
+            push_word(&mut c, if r.chance(1, 10) { r.word() } else { gen_addr(r) }, r);
+            c.push(op);
+            c.extend_from_slice(after);
+        }
+    }
+    let mut p = gen_params(r, vec![]);
+    p.spec = *r.pick(&[19u8, 255]);
+    p.gas = match r.below(6) {
+        0 => r.below(40_000),
+        1 => r.range(2300, 9000),
+        _ => r.range(100_000, 3_000_000),
+    };
+    if which != 0 && which != 1 {
+        p.is_static = r.chance(1, 3);
+    } else {
+        p.is_static = r.chance(1, 10);
+    }
+    let data = rbytes(r, 0, 40);
+    p.eof = Some(EofParams {
+        sections: vec![c],
+        types: vec![(0, 0x80, 8)],
+        data_size: data.len() as u16,
+        data,
+        containers,
+        init,
+    });
+    p
+}
+
 fn gen_eof_params(r: &mut Rng) -> Params {
     let nsec = r.range(1, 4) as usize;
+    let ncont = if r.chance(1, 2) { r.range(1, 3) as usize } else { 0 };
+    let init = ncont > 0 && r.chance(1, 3);
     let sections: Vec<Vec<u8>> = (0..nsec)
-        .map(|i| if r.chance(1, 30) { gen_random_code(r) } else { gen_eof_section(r, i, nsec) })
+        .map(|i| if r.chance(1, 30) { gen_random_code(r) } else { gen_eof_section(r, i, nsec, ncont, init) })
         .map(|c| if c.is_empty() { vec![0x00] } else { c })
         .collect();
     let types: Vec<(u8, u8, u16)> = (0..if r.chance(1, 20) { nsec - 1 } else { nsec })
@@ -1866,8 +2096,1182 @@ fn gen_eof_params(r: &mut Rng) -> Params {
     if p.gas > 3_000_000 && r.chance(3, 4) {
         p.gas = r.range(1000, 300_000);
     }
-    p.eof = Some(EofParams { sections, types, data, data_size });
+    let containers: Vec<Vec<u8>> = (0..ncont).map(|_| gen_subcontainer(r)).collect();
+    p.eof = Some(EofParams { sections, types, data, data_size, containers, init });
     p
+}
+
+
+// ---------------------------------------------------------------- valid EOF containers
+/// code emitter that tracks the operand stack height the way `validate_eof_code` does
+struct Em {
+    code: Vec<u8>,
+    h: usize,
+    max: usize,
+}
+impl Em {
+    fn new(h: usize) -> Em {
+        Em { code: vec![], h, max: h }
+    }
+    /// at every instruction start
+    fn mark(&mut self) {
+        if self.h > self.max {
+            self.max = self.h;
+        }
+    }
+    fn raw(&mut self, bytes: &[u8], ins: usize, outs: usize) {
+        self.mark();
+        assert!(self.h >= ins);
+        self.code.extend_from_slice(bytes);
+        self.h = self.h - ins + outs;
+    }
+    fn push(&mut self, w: U256, r: &mut Rng) {
+        self.mark();
+        push_word(&mut self.code, w, r);
+        self.h += 1;
+    }
+    fn need(&mut self, n: usize, r: &mut Rng) {
+        while self.h < n {
+            let w = if r.chance(1, 3) { r.word() } else { U256::from(r.below(70)) };
+            self.push(w, r);
+        }
+    }
+    fn set_height(&mut self, n: usize, r: &mut Rng) {
+        while self.h > n {
+            self.raw(&[0x50], 1, 0);
+        }
+        self.need(n, r);
+    }
+    /// a sub-emitter at the same height
+    fn fork(&self) -> Em {
+        Em { code: vec![], h: self.h, max: self.h }
+    }
+    fn join(&mut self, sub: Em) {
+        self.code.extend_from_slice(&sub.code);
+        if sub.max > self.max {
+            self.max = sub.max;
+        }
+    }
+}
+
+struct VCtx {
+    /// (inputs, outputs) per section, 0x80 = non-returning
+    sigs: Vec<(u8, u8)>,
+    data_size: usize,
+    /// sub-containers usable by EOFCREATE (init containers) / by RETURNCONTRACT (runtime containers)
+    init_subs: Vec<u8>,
+    runtime_subs: Vec<u8>,
+    /// is this container itself an init container (no STOP / RETURN) ?
+    init: bool,
+}
+
+fn small_mem(r: &mut Rng) -> U256 {
+    if r.chance(1, 8) {
+        gen_mem_word(r)
+    } else {
+        U256::from(*r.pick(&[0u64, 1, 31, 32, 33, 64, 96, 100, 200]))
+    }
+}
+
+/// a stack-neutral sequence of instructions
+fn v_neutral(e: &mut Em, r: &mut Rng) {
+    for _ in 0..r.below(3) {
+        match r.below(4) {
+            0 => {
+                e.raw(&[0x5f], 0, 1);
+                e.raw(&[0x50], 1, 0);
+            }
+            1 => e.raw(&[0x5b], 0, 0),
+            2 => {
+                e.push(U256::from(r.below(300)), r);
+                e.push(U256::from(r.below(300)), r);
+                e.raw(&[0x01], 2, 1);
+                e.raw(&[0x50], 1, 0);
+            }
+            _ => {
+                e.push(small_mem(r), r);
+                e.raw(&[0x51], 1, 1);
+                e.raw(&[0x50], 1, 0);
+            }
+        }
+    }
+}
+
+/// a terminating sequence for section `idx`
+fn v_term(e: &mut Em, r: &mut Rng, c: &VCtx, idx: usize) {
+    let (_, outs) = c.sigs[idx];
+    let push2 = |e: &mut Em, r: &mut Rng| {
+        e.push(small_mem(r), r);
+        e.push(small_mem(r), r);
+    };
+    if outs != 0x80 {
+        // returning: RETF, or JUMPF to a returning section with at most as many outputs
+        let cands: Vec<usize> =
+            (1..c.sigs.len()).filter(|j| c.sigs[*j].1 != 0x80 && c.sigs[*j].1 <= outs).collect();
+        if !cands.is_empty() && r.chance(1, 4) {
+            let j = *r.pick(&cands);
+            let (ji, jo) = c.sigs[j];
+            e.set_height(outs as usize + ji as usize - jo as usize, r);
+            e.raw(&[0xe5, (j >> 8) as u8, j as u8], ji as usize, 0);
+        } else {
+            e.set_height(outs as usize, r);
+            e.raw(&[0xe4], outs as usize, 0);
+        }
+        return;
+    }
+    let nonret: Vec<usize> = (1..c.sigs.len()).filter(|j| c.sigs[*j].1 == 0x80 && *j != idx).collect();
+    match r.below(6) {
+        0 if !nonret.is_empty() => {
+            let j = *r.pick(&nonret);
+            let ji = c.sigs[j].0 as usize;
+            e.need(ji, r);
+            e.raw(&[0xe5, (j >> 8) as u8, j as u8], ji, 0);
+        }
+        1 => {
+            push2(e, r);
+            e.raw(&[0xfd], 2, 0);
+        }
+        2 => e.raw(&[0xfe], 0, 0),
+        _ if c.init => {
+            if c.runtime_subs.is_empty() {
+                e.raw(&[0xfe], 0, 0);
+            } else {
+                // RETURNCONTRACT: aux_data_offset (top), aux_data_size
+                let sz = match r.below(5) {
+                    0 => U256::from(0xffffu64),
+                    1 => small_mem(r),
+                    _ => U256::from(r.below(40)),
+                };
+                e.push(sz, r);
+                e.push(small_mem(r), r);
+                let k = *r.pick(&c.runtime_subs);
+                e.raw(&[0xee, k], 2, 0);
+            }
+        }
+        3 => {
+            push2(e, r);
+            e.raw(&[0xf3], 2, 0);
+        }
+        _ => e.raw(&[0x00], 0, 0),
+    }
+}
+
+/// `cond; RJUMPI over; <block that ends the frame / the function>; over:`
+fn v_early_exit(e: &mut Em, r: &mut Rng, block: impl FnOnce(&mut Em, &mut Rng)) {
+    e.push(if r.chance(1, 2) { U256::ZERO } else { U256::from(1) }, r);
+    e.mark();
+    e.h -= 1;
+    let mut sub = e.fork();
+    block(&mut sub, r);
+    let off = sub.code.len() as i16;
+    e.code.push(0xe1);
+    e.code.extend_from_slice(&off.to_be_bytes());
+    let h = e.h;
+    e.join(sub);
+    e.h = h;
+}
+
+fn v_callf(e: &mut Em, r: &mut Rng, c: &VCtx, j: usize) {
+    let (ji, jo) = c.sigs[j];
+    e.need(ji as usize, r);
+    e.raw(&[0xe3, (j >> 8) as u8, j as u8], ji as usize, jo as usize);
+}
+
+fn v_eofcreate(e: &mut Em, r: &mut Rng, k: u8) {
+    e.push(small_mem(r), r);
+    e.push(small_mem(r), r);
+    e.push(r.word(), r);
+    e.push(if r.chance(1, 2) { U256::ZERO } else { U256::from(r.below(1000)) }, r);
+    e.raw(&[0xec, k], 4, 1);
+}
+
+fn v_item(e: &mut Em, r: &mut Rng, c: &VCtx, idx: usize) {
+    if e.h > 12 {
+        e.set_height(r.range(0, 6) as usize, r);
+        return;
+    }
+    let returning: Vec<usize> = (1..c.sigs.len()).filter(|j| c.sigs[*j].1 != 0x80).collect();
+    match r.below(24) {
+        0 => {
+            let (op, req) = match r.below(3) {
+                0 => {
+                    let imm = r.below(4) as u8;
+                    ([0xe6u8, imm], imm as usize + 1)
+                }
+                1 => {
+                    let imm = r.below(4) as u8;
+                    ([0xe7, imm], imm as usize + 2)
+                }
+                _ => {
+                    let imm = *r.pick(&[0x00u8, 0x01, 0x10, 0x11, 0x02]);
+                    ([0xe8, imm], (imm >> 4) as usize + (imm & 0xf) as usize + 3)
+                }
+            };
+            e.need(req, r);
+            let outs = if op[0] == 0xe6 { e.h + 1 } else { e.h };
+            let ins = e.h;
+            e.raw(&op, ins, outs);
+        }
+        1 if c.data_size >= 32 => {
+            let off = r.below(c.data_size as u64 - 31) as u16;
+            e.raw(&[0xd1, (off >> 8) as u8, off as u8], 0, 1);
+        }
+        2 | 3 if !returning.is_empty() => {
+            let j = *r.pick(&returning);
+            v_callf(e, r, c, j);
+        }
+        4 | 5 => {
+            // conditional forward jump over a neutral block
+            e.push(if r.chance(1, 2) { U256::ZERO } else { r.word() }, r);
+            e.mark();
+            e.h -= 1;
+            let mut sub = e.fork();
+            v_neutral(&mut sub, r);
+            let off = sub.code.len() as i16;
+            e.code.push(0xe1);
+            e.code.extend_from_slice(&off.to_be_bytes());
+            e.join(sub);
+        }
+        6 => {
+            // RJUMPV over neutral blocks
+            let m = r.range(1, 3) as usize;
+            e.push(match r.below(4) { 0 => U256::MAX, 1 => U256::from(u64::MAX), _ => U256::from(r.below(m as u64 + 2)) }, r);
+            e.mark();
+            e.h -= 1;
+            let mut blocks = vec![];
+            let mut starts = vec![0usize];
+            for _ in 0..=m {
+                let mut sub = e.fork();
+                v_neutral(&mut sub, r);
+                starts.push(starts.last().unwrap() + sub.code.len());
+                blocks.push(sub);
+            }
+            e.code.push(0xe2);
+            e.code.push((m - 1) as u8);
+            for _ in 0..m {
+                let t = starts[r.below(starts.len() as u64) as usize] as i16;
+                e.code.extend_from_slice(&t.to_be_bytes());
+            }
+            for b in blocks {
+                e.join(b);
+            }
+        }
+        7 => {
+            // a counted loop with a backward RJUMPI
+            e.push(U256::from(r.range(1, 4)), r);
+            let l = e.code.len();
+            v_neutral(e, r);
+            e.push(U256::from(1), r);
+            e.raw(&[0x90], 2, 2);
+            e.raw(&[0x03], 2, 1);
+            e.raw(&[0x80], 1, 2);
+            e.mark();
+            e.h -= 1;
+            let off = (l as i64 - (e.code.len() as i64 + 3)) as i16;
+            e.code.push(0xe1);
+            e.code.extend_from_slice(&off.to_be_bytes());
+            e.raw(&[0x50], 1, 0);
+        }
+        8 => {
+            let op = *r.pick(&[0xf8u8, 0xf9, 0xfb]);
+            if op == 0xf8 {
+                e.push(if r.chance(1, 2) { U256::ZERO } else { U256::from(r.below(1000)) }, r);
+            }
+            e.push(small_mem(r), r);
+            e.push(small_mem(r), r);
+            e.push(if r.chance(1, 10) { r.word() } else { gen_addr(r) }, r);
+            e.raw(&[op], if op == 0xf8 { 4 } else { 3 }, 1);
+        }
+        9 if !c.init_subs.is_empty() => {
+            let k = *r.pick(&c.init_subs);
+            v_eofcreate(e, r, k);
+        }
+        10 => {
+            let c2 = VCtx {
+                sigs: c.sigs.clone(),
+                data_size: c.data_size,
+                init_subs: c.init_subs.clone(),
+                runtime_subs: c.runtime_subs.clone(),
+                init: c.init,
+            };
+            v_early_exit(e, r, |s, r| v_term(s, r, &c2, idx));
+        }
+        11 => {
+            // RJUMP to the next instruction
+            e.mark();
+            e.code.extend_from_slice(&[0xe0, 0, 0]);
+        }
+        _ => {
+            let op = *r.pick(EOF_PLAIN_OPS);
+            let Some(info) = OPCODE_INFO_JUMPTABLE[op as usize] else { return };
+            if info.is_disabled_in_eof() {
+                return;
+            }
+            let (ins, outs) = (info.inputs() as usize, info.outputs() as usize);
+            if (0x80..=0x9f).contains(&op) {
+                e.need(ins, r);
+            } else {
+                let ops: Vec<U256> = match op {
+                    0x51 => vec![small_mem(r)],
+                    0x52 | 0x53 => vec![small_mem(r), r.word()],
+                    0x5e | 0x37 | 0x3e | 0xd3 => vec![small_mem(r), small_mem(r), small_mem(r)],
+                    0x20 => vec![small_mem(r), small_mem(r)],
+                    0xa0 | 0xa1 => {
+                        let mut v = vec![small_mem(r), small_mem(r)];
+                        if op == 0xa1 {
+                            v.push(r.word());
+                        }
+                        v
+                    }
+                    _ => eof_operands(op, r),
+                };
+                if ops.len() != ins {
+                    return;
+                }
+                for w in ops.iter().rev() {
+                    e.push(*w, r);
+                }
+            }
+            e.raw(&[op], ins, outs);
+        }
+    }
+}
+
+/// a container the real validator accepts (checked by the caller): stack heights tracked, every section and
+/// sub-container reached, jumps on instruction starts, exact `max_stack_size`
+fn gen_eof_valid(r: &mut Rng) -> Params {
+    let nsec = r.range(1, 4) as usize;
+    let mut sigs: Vec<(u8, u8)> = vec![(0, 0x80)];
+    for _ in 1..nsec {
+        sigs.push((r.below(3) as u8, if r.chance(1, 4) { 0x80 } else { r.below(3) as u8 }));
+    }
+    let init = r.chance(1, 4);
+    let data = match r.below(3) {
+        0 => vec![],
+        _ => rbytes(r, 32, 80),
+    };
+    // sub-containers: runtime ones (for RETURNCONTRACT, only in an init container), init ones (for EOFCREATE)
+    let runtime_sub = |r: &mut Rng| -> Vec<u8> {
+        let body = EofBody {
+            types_section: vec![TypesSection { inputs: 0, outputs: 0x80, max_stack_size: 0 }],
+            code_section: vec![Bytes::from(vec![if r.chance(1, 2) { 0x00 } else { 0xfe }])],
+            container_section: vec![],
+            data_section: Bytes::from(rbytes(r, 0, 40)),
+            is_data_filled: true,
+        };
+        body.into_eof().raw.to_vec()
+    };
+    let mut containers: Vec<Vec<u8>> = vec![];
+    let mut init_subs = vec![];
+    let mut runtime_subs = vec![];
+    if init {
+        for _ in 0..r.range(1, 2) {
+            runtime_subs.push(containers.len() as u8);
+            containers.push(runtime_sub(r));
+        }
+    }
+    if r.chance(1, 2) {
+        for _ in 0..r.range(1, 2) {
+            init_subs.push(containers.len() as u8);
+            let inner = runtime_sub(r);
+            let body = EofBody {
+                types_section: vec![TypesSection { inputs: 0, outputs: 0x80, max_stack_size: 2 }],
+                code_section: vec![Bytes::from(vec![0x5f, 0x5f, 0xee, 0x00])],
+                container_section: vec![Bytes::from(inner)],
+                data_section: Bytes::from(rbytes(r, 0, 20)),
+                is_data_filled: true,
+            };
+            containers.push(body.into_eof().raw.to_vec());
+        }
+    }
+    let c = VCtx { sigs: sigs.clone(), data_size: data.len(), init_subs, runtime_subs, init };
+    let mut sections = vec![];
+    let mut types = vec![];
+    for idx in 0..nsec {
+        let mut e = Em::new(sigs[idx].0 as usize);
+        // section 0 reaches every other section and every sub-container
+        let mut todo: Vec<Box<dyn FnOnce(&mut Em, &mut Rng)>> = vec![];
+        if idx == 0 {
+            for j in 1..nsec {
+                let c2 = VCtx {
+                    sigs: c.sigs.clone(),
+                    data_size: c.data_size,
+                    init_subs: c.init_subs.clone(),
+                    runtime_subs: c.runtime_subs.clone(),
+                    init: c.init,
+                };
+                if sigs[j].1 != 0x80 {
+                    todo.push(Box::new(move |e: &mut Em, r: &mut Rng| v_callf(e, r, &c2, j)));
+                } else {
+                    todo.push(Box::new(move |e: &mut Em, r: &mut Rng| {
+                        v_early_exit(e, r, |s, r| {
+                            let ji = c2.sigs[j].0 as usize;
+                            s.need(ji, r);
+                            s.raw(&[0xe5, (j >> 8) as u8, j as u8], ji, 0);
+                        })
+                    }));
+                }
+            }
+            for k in c.init_subs.clone() {
+                todo.push(Box::new(move |e: &mut Em, r: &mut Rng| v_eofcreate(e, r, k)));
+            }
+            for k in c.runtime_subs.clone() {
+                todo.push(Box::new(move |e: &mut Em, r: &mut Rng| {
+                    v_early_exit(e, r, |s, r| {
+                        s.push(U256::from(r.below(40)), r);
+                        s.push(small_mem(r), r);
+                        s.raw(&[0xee, k], 2, 0);
+                    })
+                }));
+            }
+        }
+        let k = r.range(1, 9) as usize;
+        for _ in 0..k {
+            if !todo.is_empty() && r.chance(1, 2) {
+                let f = todo.remove(0);
+                f(&mut e, r);
+            } else {
+                v_item(&mut e, r, &c, idx);
+            }
+        }
+        for f in todo {
+            f(&mut e, r);
+        }
+        v_term(&mut e, r, &c, idx);
+        types.push((sigs[idx].0, sigs[idx].1, e.max as u16));
+        sections.push(e.code);
+    }
+    let mut p = gen_params(r, vec![]);
+    p.spec = *r.pick(&[19u8, 255]);
+    p.gas = match r.below(6) {
+        0 => r.below(3000),
+        1 => r.range(3000, 40_000),
+        _ => r.range(100_000, 3_000_000),
+    };
+    p.is_static = r.chance(1, 10);
+    p.eof = Some(EofParams { sections, types, data_size: data.len() as u16, data, containers, init });
+    p
+}
+
+// ---------------------------------------------------------------- frames of real transactions
+/// minimal JSON (the state-test fixtures: objects, arrays, strings, numbers, null / booleans)
+#[derive(Debug)]
+enum J {
+    Null,
+    Bool(bool),
+    Num(f64),
+    Str(String),
+    Arr(Vec<J>),
+    Obj(Vec<(String, J)>),
+}
+impl J {
+    fn get(&self, k: &str) -> Option<&J> {
+        match self {
+            J::Obj(v) => v.iter().find(|(a, _)| a == k).map(|(_, b)| b),
+            _ => None,
+        }
+    }
+    fn str(&self) -> Option<&str> {
+        match self {
+            J::Str(s) => Some(s),
+            _ => None,
+        }
+    }
+    fn arr(&self) -> Option<&[J]> {
+        match self {
+            J::Arr(v) => Some(v),
+            _ => None,
+        }
+    }
+    fn obj(&self) -> Option<&[(String, J)]> {
+        match self {
+            J::Obj(v) => Some(v),
+            _ => None,
+        }
+    }
+    fn idx(&self) -> Option<usize> {
+        match self {
+            J::Num(x) => Some(*x as usize),
+            _ => None,
+        }
+    }
+}
+struct JP<'a> {
+    b: &'a [u8],
+    i: usize,
+}
+impl<'a> JP<'a> {
+    fn ws(&mut self) {
+        while self.i < self.b.len() && matches!(self.b[self.i], b' ' | b'\n' | b'\r' | b'\t') {
+            self.i += 1;
+        }
+    }
+    fn lit(&mut self, s: &str) -> Option<()> {
+        if self.b[self.i..].starts_with(s.as_bytes()) {
+            self.i += s.len();
+            Some(())
+        } else {
+            None
+        }
+    }
+    fn string(&mut self) -> Option<String> {
+        if *self.b.get(self.i)? != b'"' {
+            return None;
+        }
+        self.i += 1;
+        let mut out: Vec<u8> = vec![];
+        loop {
+            let c = *self.b.get(self.i)?;
+            self.i += 1;
+            match c {
+                b'"' => break,
+                b'\\' => {
+                    let e = *self.b.get(self.i)?;
+                    self.i += 1;
+                    match e {
+                        b'n' => out.push(b'\n'),
+                        b't' => out.push(b'\t'),
+                        b'r' => out.push(b'\r'),
+                        b'b' => out.push(8),
+                        b'f' => out.push(12),
+                        b'u' => {
+                            // not needed for the fields read here
+                            self.i += 4;
+                            out.push(b'?');
+                        }
+                        x => out.push(x),
+                    }
+                }
+                x => out.push(x),
+            }
+        }
+        Some(String::from_utf8_lossy(&out).into_owned())
+    }
+    fn value(&mut self) -> Option<J> {
+        self.ws();
+        match *self.b.get(self.i)? {
+            b'{' => {
+                self.i += 1;
+                let mut v = vec![];
+                self.ws();
+                if *self.b.get(self.i)? == b'}' {
+                    self.i += 1;
+                    return Some(J::Obj(v));
+                }
+                loop {
+                    self.ws();
+                    let k = self.string()?;
+                    self.ws();
+                    if *self.b.get(self.i)? != b':' {
+                        return None;
+                    }
+                    self.i += 1;
+                    let x = self.value()?;
+                    v.push((k, x));
+                    self.ws();
+                    match *self.b.get(self.i)? {
+                        b',' => self.i += 1,
+                        b'}' => {
+                            self.i += 1;
+                            return Some(J::Obj(v));
+                        }
+                        _ => return None,
+                    }
+                }
+            }
+            b'[' => {
+                self.i += 1;
+                let mut v = vec![];
+                self.ws();
+                if *self.b.get(self.i)? == b']' {
+                    self.i += 1;
+                    return Some(J::Arr(v));
+                }
+                loop {
+                    let x = self.value()?;
+                    v.push(x);
+                    self.ws();
+                    match *self.b.get(self.i)? {
+                        b',' => self.i += 1,
+                        b']' => {
+                            self.i += 1;
+                            return Some(J::Arr(v));
+                        }
+                        _ => return None,
+                    }
+                }
+            }
+            b'"' => self.string().map(J::Str),
+            b'n' => self.lit("null").map(|_| J::Null),
+            b't' => self.lit("true").map(|_| J::Bool(true)),
+            b'f' => self.lit("false").map(|_| J::Bool(false)),
+            _ => {
+                let st = self.i;
+                while self.i < self.b.len() && matches!(self.b[self.i], b'0'..=b'9' | b'-' | b'+' | b'.' | b'e' | b'E') {
+                    self.i += 1;
+                }
+                std::str::from_utf8(&self.b[st..self.i]).ok()?.parse::<f64>().ok().map(J::Num)
+            }
+        }
+    }
+}
+fn parse_json(b: &[u8]) -> Option<J> {
+    let mut p = JP { b, i: 0 };
+    p.value()
+}
+
+fn jhex_word(j: Option<&J>) -> Option<U256> {
+    let s = j?.str()?;
+    let s = s.strip_prefix("0x").unwrap_or(s);
+    if s.is_empty() {
+        return Some(U256::ZERO);
+    }
+    U256::from_str_radix(s, 16).ok()
+}
+fn jhex_bytes(j: Option<&J>) -> Option<Vec<u8>> {
+    let s = j?.str()?;
+    let s = s.strip_prefix("0x").unwrap_or(s);
+    if s.len() % 2 != 0 {
+        return None;
+    }
+    (0..s.len() / 2).map(|i| u8::from_str_radix(&s[2 * i..2 * i + 2], 16).ok()).collect()
+}
+fn jaddr(j: Option<&J>) -> Option<Address> {
+    let b = jhex_bytes(j)?;
+    if b.len() != 20 {
+        return None;
+    }
+    Some(Address::from_slice(&b))
+}
+
+fn spec_by_name(n: &str) -> Option<SpecId> {
+    Some(match n {
+        "Frontier" => SpecId::FRONTIER,
+        "Homestead" => SpecId::HOMESTEAD,
+        "EIP150" | "Tangerine" => SpecId::TANGERINE,
+        "EIP158" | "Spurious" => SpecId::SPURIOUS_DRAGON,
+        "Byzantium" => SpecId::BYZANTIUM,
+        "ConstantinopleFix" | "Petersburg" => SpecId::PETERSBURG,
+        "Istanbul" => SpecId::ISTANBUL,
+        "Berlin" => SpecId::BERLIN,
+        "London" => SpecId::LONDON,
+        "Paris" | "Merge" => SpecId::MERGE,
+        "Shanghai" => SpecId::SHANGHAI,
+        "Cancun" => SpecId::CANCUN,
+        "Prague" => SpecId::PRAGUE,
+        "Osaka" => SpecId::OSAKA,
+        _ => return None,
+    })
+}
+
+/// one frame of a real transaction: how the interpreter was set up, what the host answered to every instruction,
+/// what came back from every child frame, and how the frame ended
+pub struct RecFrame {
+    pub params: Params,
+    pub steps: Vec<Resp>,
+    pub children: Vec<Child>,
+    /// (result, gas remaining) of a call frame as handed to the caller
+    pub end: Option<(InstructionResult, u64)>,
+    pub is_create: bool,
+}
+
+type RealDb = CacheDB<EmptyDB>;
+
+/// the recording inspector
+#[derive(Default)]
+pub struct Rec {
+    spec: u8,
+    open: Vec<RecFrame>,
+    /// one mark per call / create the inspector was told about: did it become a frame?
+    marks: Vec<bool>,
+    pub done: Vec<RecFrame>,
+}
+impl Rec {
+    fn host_answer(interp: &Interpreter, ctx: &mut EvmContext<RealDb>) -> Resp {
+        let op = interp.current_opcode();
+        let pk = |i: usize| interp.stack.peek(i).ok();
+        let me = interp.contract.target_address;
+        let acct = |ctx: &mut EvmContext<RealDb>, a: U256| -> Resp {
+            let mut c = ctx.inner.clone();
+            match c.load_account_delegated(addr_of(a)) {
+                Ok(l) => Resp {
+                    ok: true,
+                    cold: l.load.state_load.is_cold,
+                    flags: if l.is_empty { 8 } else { 0 },
+                    deleg: l.load.is_delegate_account_cold,
+                    ..Default::default()
+                },
+                Err(_) => Resp::default(),
+            }
+        };
+        match op {
+            0x31 | 0x47 => {
+                let a = if op == 0x47 { Some(me) } else { pk(0).map(addr_of) };
+                let Some(a) = a else { return Resp::default() };
+                let mut c = ctx.inner.clone();
+                match c.balance(a) {
+                    Ok(l) => Resp { ok: true, word: l.data, cold: l.is_cold, ..Default::default() },
+                    Err(_) => Resp::default(),
+                }
+            }
+            0x3b | 0x3c => {
+                let Some(a) = pk(0) else { return Resp::default() };
+                let mut c = ctx.inner.clone();
+                match c.code(addr_of(a)) {
+                    Ok(l) => Resp { ok: true, bytes: l.data.to_vec(), cold: l.is_cold, ..Default::default() },
+                    Err(_) => Resp::default(),
+                }
+            }
+            0x3f => {
+                let Some(a) = pk(0) else { return Resp::default() };
+                let mut c = ctx.inner.clone();
+                match c.code_hash(addr_of(a)) {
+                    Ok(l) => Resp { ok: true, word: U256::from_be_bytes(l.data.0), cold: l.is_cold, ..Default::default() },
+                    Err(_) => Resp::default(),
+                }
+            }
+            0x40 => {
+                // `Context::block_hash`
+                let Some(n) = pk(0) else { return Resp::default() };
+                let sat = |w: U256| if w > U256::from(u64::MAX) { u64::MAX } else { w.as_limbs()[0] };
+                let (n, cur) = (sat(n), sat(ctx.inner.env.block.number));
+                let word = match cur.checked_sub(n) {
+                    None | Some(0) => U256::ZERO,
+                    Some(d) if d <= revm::primitives::BLOCK_HASH_HISTORY => {
+                        let mut c = ctx.inner.clone();
+                        match c.block_hash(n) {
+                            Ok(h) => U256::from_be_bytes(h.0),
+                            Err(_) => return Resp::default(),
+                        }
+                    }
+                    _ => U256::ZERO,
+                };
+                Resp { ok: true, word, ..Default::default() }
+            }
+            0x54 => {
+                let Some(k) = pk(0) else { return Resp::default() };
+                let mut c = ctx.inner.clone();
+                match c.sload(me, k) {
+                    Ok(l) => Resp { ok: true, word: l.data, cold: l.is_cold, ..Default::default() },
+                    Err(_) => Resp::default(),
+                }
+            }
+            0x55 => {
+                let (Some(k), Some(v)) = (pk(0), pk(1)) else { return Resp::default() };
+                let mut c = ctx.inner.clone();
+                match c.sstore(me, k, v) {
+                    Ok(l) => Resp {
+                        ok: true,
+                        orig: l.data.original_value,
+                        pres: l.data.present_value,
+                        new: l.data.new_value,
+                        cold: l.is_cold,
+                        ..Default::default()
+                    },
+                    Err(_) => Resp::default(),
+                }
+            }
+            0x5c => {
+                let Some(k) = pk(0) else { return Resp::default() };
+                let mut c = ctx.inner.clone();
+                Resp { ok: true, word: c.tload(me, k), ..Default::default() }
+            }
+            0xff => {
+                let Some(t) = pk(0) else { return Resp::default() };
+                let mut c = ctx.inner.clone();
+                match c.selfdestruct(me, addr_of(t)) {
+                    Ok(l) => Resp {
+                        ok: true,
+                        cold: l.is_cold,
+                        flags: (l.data.had_value as u8) | (l.data.target_exists as u8) << 1 | (l.data.previously_destroyed as u8) << 2,
+                        ..Default::default()
+                    },
+                    Err(_) => Resp::default(),
+                }
+            }
+            0xf1 | 0xf2 | 0xf4 | 0xfa => match pk(1) {
+                Some(a) => acct(ctx, a),
+                None => Resp::default(),
+            },
+            0xf8 | 0xf9 | 0xfb => match pk(0) {
+                Some(a) => acct(ctx, a),
+                None => Resp::default(),
+            },
+            _ => Resp::default(),
+        }
+    }
+    fn child_of(r: &InterpreterResult, address: Option<Address>) -> Child {
+        Child {
+            result: r.result,
+            gas: r.gas.remaining(),
+            refunded: r.gas.refunded(),
+            output: r.output.to_vec(),
+            address: address.map(|a| U256::from_be_slice(a.as_slice())),
+        }
+    }
+    /// a call / create came back: close its frame (if it became one), hand the result to the caller's record
+    fn came_back(&mut self, r: &InterpreterResult, address: Option<Address>) {
+        if self.marks.pop() == Some(true) {
+            if let Some(mut f) = self.open.pop() {
+                f.end = Some((r.result, r.gas.remaining()));
+                self.done.push(f);
+            }
+        }
+        if let Some(parent) = self.open.last_mut() {
+            parent.children.push(Rec::child_of(r, address));
+        }
+    }
+}
+impl Inspector<RealDb> for Rec {
+    fn initialize_interp(&mut self, interp: &mut Interpreter, ctx: &mut EvmContext<RealDb>) {
+        if let Some(m) = self.marks.last_mut() {
+            *m = true;
+        }
+        let w = |a: Address| U256::from_be_slice(a.as_slice());
+        let env = &ctx.inner.env;
+        let (eof, code) = match &interp.contract.bytecode {
+            Bytecode::Eof(e) => (
+                Some(EofParams {
+                    sections: e.body.code_section.iter().map(|c| c.to_vec()).collect(),
+                    types: e.body.types_section.iter().map(|t| (t.inputs, t.outputs, t.max_stack_size)).collect(),
+                    data: e.body.data_section.to_vec(),
+                    data_size: e.header.data_size,
+                    containers: e.body.container_section.iter().map(|c| c.to_vec()).collect(),
+                    init: interp.is_eof_init,
+                }),
+                vec![],
+            ),
+            b => (None, b.original_byte_slice().to_vec()),
+        };
+        let params = Params {
+            eof,
+            spec: self.spec,
+            gas: interp.gas.limit(),
+            is_static: interp.is_static,
+            code,
+            input: interp.contract.input.to_vec(),
+            target: w(interp.contract.target_address),
+            caller: w(interp.contract.caller),
+            value: interp.contract.call_value,
+            env: EnvTok {
+                chain: env.cfg.chain_id,
+                coinbase: w(env.block.coinbase),
+                timestamp: env.block.timestamp,
+                number: env.block.number,
+                difficulty: env.block.difficulty,
+                prevrandao: env.block.prevrandao.map(|h| U256::from_be_bytes(h.0)),
+                gas_limit: env.block.gas_limit,
+                basefee: env.block.basefee,
+                gas_price: env.tx.gas_price,
+                prio: env.tx.gas_priority_fee,
+                origin: w(env.tx.caller),
+                blob_hashes: env.tx.blob_hashes.iter().map(|h| U256::from_be_bytes(h.0)).collect(),
+                blob_gasprice: env.block.blob_excess_gas_and_price.as_ref().map(|b| b.blob_gasprice),
+                limit: env.cfg.limit_contract_code_size.map(|x| x as u64),
+            },
+        };
+        self.open.push(RecFrame { params, steps: vec![], children: vec![], end: None, is_create: false });
+    }
+    fn step(&mut self, interp: &mut Interpreter, ctx: &mut EvmContext<RealDb>) {
+        let r = Rec::host_answer(interp, ctx);
+        if let Some(f) = self.open.last_mut() {
+            f.steps.push(r);
+        }
+    }
+    fn call(&mut self, _ctx: &mut EvmContext<RealDb>, _inputs: &mut CallInputs) -> Option<CallOutcome> {
+        self.marks.push(false);
+        None
+    }
+    fn call_end(&mut self, _ctx: &mut EvmContext<RealDb>, _inputs: &CallInputs, outcome: CallOutcome) -> CallOutcome {
+        self.came_back(&outcome.result, None);
+        outcome
+    }
+    fn create(&mut self, _ctx: &mut EvmContext<RealDb>, _inputs: &mut CreateInputs) -> Option<CreateOutcome> {
+        self.marks.push(false);
+        None
+    }
+    fn create_end(&mut self, _ctx: &mut EvmContext<RealDb>, _inputs: &CreateInputs, outcome: CreateOutcome) -> CreateOutcome {
+        if self.marks.last() == Some(&true) {
+            if let Some(f) = self.open.last_mut() {
+                f.is_create = true;
+            }
+        }
+        self.came_back(&outcome.result, outcome.address);
+        outcome
+    }
+    fn eofcreate(&mut self, _ctx: &mut EvmContext<RealDb>, _inputs: &mut EOFCreateInputs) -> Option<CreateOutcome> {
+        self.marks.push(false);
+        None
+    }
+    fn eofcreate_end(
+        &mut self,
+        _ctx: &mut EvmContext<RealDb>,
+        _inputs: &EOFCreateInputs,
+        outcome: CreateOutcome,
+    ) -> CreateOutcome {
+        if self.marks.last() == Some(&true) {
+            if let Some(f) = self.open.last_mut() {
+                f.is_create = true;
+            }
+        }
+        self.came_back(&outcome.result, outcome.address);
+        outcome
+    }
+}
+
+/// run one transaction of a state-test fixture on the full EVM with the recording inspector
+fn record_tx(unit: &J, spec: SpecId, post: &J) -> Option<Vec<RecFrame>> {
+    let mut db = RealDb::new(EmptyDB::default());
+    for (a, acc) in unit.get("pre")?.obj()? {
+        let addr = jaddr(Some(&J::Str(a.clone())))?;
+        let code = jhex_bytes(acc.get("code")).unwrap_or_default();
+        let bytecode = if code.is_empty() {
+            Bytecode::default()
+        } else {
+            match Bytecode::new_raw_checked(Bytes::from(code.clone())) {
+                Ok(b) => b,
+                Err(_) => Bytecode::new_legacy(Bytes::from(code.clone())),
+            }
+        };
+        let info = AccountInfo {
+            balance: jhex_word(acc.get("balance"))?,
+            nonce: jhex_word(acc.get("nonce"))?.as_limbs()[0],
+            code_hash: keccak256(&code),
+            code: Some(bytecode),
+        };
+        db.insert_account_info(addr, info);
+        if let Some(st) = acc.get("storage").and_then(|s| s.obj()) {
+            for (k, v) in st {
+                let k = jhex_word(Some(&J::Str(k.clone())))?;
+                let _ = db.insert_account_storage(addr, k, jhex_word(Some(v))?);
+            }
+        }
+    }
+    let e = unit.get("env")?;
+    let tx = unit.get("transaction")?;
+    if tx.get("authorizationList").and_then(|a| a.arr()).map(|a| !a.is_empty()).unwrap_or(false) {
+        return None;
+    }
+    let idx = post.get("indexes")?;
+    let (di, gi, vi) = (idx.get("data")?.idx()?, idx.get("gas")?.idx()?, idx.get("value")?.idx()?);
+    let mut env = Env::default();
+    env.cfg.chain_id = 1;
+    env.block.number = jhex_word(e.get("currentNumber"))?;
+    env.block.coinbase = jaddr(e.get("currentCoinbase"))?;
+    env.block.timestamp = jhex_word(e.get("currentTimestamp"))?;
+    env.block.gas_limit = jhex_word(e.get("currentGasLimit"))?;
+    env.block.basefee = jhex_word(e.get("currentBaseFee")).unwrap_or_default();
+    env.block.difficulty = jhex_word(e.get("currentDifficulty")).unwrap_or_default();
+    env.block.prevrandao = jhex_word(e.get("currentRandom")).map(B256::from);
+    if spec.is_enabled_in(SpecId::MERGE) && env.block.prevrandao.is_none() {
+        env.block.prevrandao = Some(B256::default());
+    }
+    if let Some(x) = jhex_word(e.get("currentExcessBlobGas")) {
+        env.block.set_blob_excess_gas_and_price(x.as_limbs()[0], spec.is_enabled_in(SpecId::PRAGUE));
+    }
+    env.tx.caller = jaddr(tx.get("sender"))?;
+    env.tx.gas_price = jhex_word(tx.get("gasPrice")).or(jhex_word(tx.get("maxFeePerGas"))).unwrap_or_default();
+    env.tx.gas_priority_fee = jhex_word(tx.get("maxPriorityFeePerGas"));
+    env.tx.blob_hashes = match tx.get("blobVersionedHashes").and_then(|a| a.arr()) {
+        Some(a) => a.iter().map(|h| jhex_word(Some(h)).map(B256::from)).collect::<Option<Vec<_>>>()?,
+        None => vec![],
+    };
+    env.tx.max_fee_per_blob_gas = jhex_word(tx.get("maxFeePerBlobGas"));
+    let gl = jhex_word(tx.get("gasLimit")?.arr()?.get(gi))?;
+    env.tx.gas_limit = if gl > U256::from(u64::MAX) { u64::MAX } else { gl.as_limbs()[0] };
+    env.tx.data = Bytes::from(jhex_bytes(tx.get("data")?.arr()?.get(di))?);
+    env.tx.value = jhex_word(tx.get("value")?.arr()?.get(vi))?;
+    env.tx.nonce = None;
+    if let Some(al) = tx.get("accessLists").and_then(|a| a.arr()).and_then(|a| a.get(di)).and_then(|a| a.arr()) {
+        for it in al {
+            let address = jaddr(it.get("address"))?;
+            let storage_keys = it
+                .get("storageKeys")?
+                .arr()?
+                .iter()
+                .map(|k| jhex_word(Some(k)).map(B256::from))
+                .collect::<Option<Vec<_>>>()?;
+            env.tx.access_list.push(AccessListItem { address, storage_keys });
+        }
+    }
+    env.tx.transact_to = match tx.get("to").and_then(|t| t.str()) {
+        Some(s) if !s.is_empty() => TxKind::Call(jaddr(tx.get("to"))?),
+        _ => TxKind::Create,
+    };
+    let rec = Rec { spec: spec as u8, ..Default::default() };
+    let r = std::panic::catch_unwind(AssertUnwindSafe(move || {
+        let mut evm = Evm::builder()
+            .with_db(db)
+            .with_external_context(rec)
+            .with_spec_id(spec)
+            .modify_env(|x| **x = env)
+            .append_handler_register(inspector_handle_register)
+            .build();
+        let ok = evm.transact().is_ok();
+        let rec = std::mem::take(&mut evm.context.external);
+        (ok, rec)
+    }));
+    match r {
+        Ok((true, rec)) => Some(rec.done),
+        _ => None,
+    }
+}
+
+fn list_json(dir: &std::path::Path, acc: &mut Vec<std::path::PathBuf>) {
+    let Ok(rd) = std::fs::read_dir(dir) else { return };
+    let mut es: Vec<_> = rd.filter_map(|e| e.ok()).map(|e| e.path()).collect();
+    es.sort();
+    for p in es {
+        if p.is_dir() {
+            list_json(&p, acc);
+        } else if p.extension().map(|x| x == "json").unwrap_or(false)
+            && std::fs::metadata(&p).map(|m| m.len() > 0 && m.len() < 6_000_000).unwrap_or(false)
+        {
+            acc.push(p);
+        }
+    }
+}
+
+/// replay one recorded frame at the interpreter level: the host answers and child results are the recorded ones
+fn gen_recorded(f: &RecFrame, max_steps: usize, out: &mut Out, lines: &mut Vec<String>) {
+    let case_id = lines.len();
+    let mut ex = Exec::new();
+    let b = f.params.begin_line();
+    let rep = ex.line(&b);
+    lines.push(b);
+    if !rep.starts_with("ok ") {
+        out.count("real:begin-refused");
+        return;
+    }
+    out.count("real:frame");
+    let (mut steps, mut kids) = (0usize, 0usize);
+    let mut complete = false;
+    loop {
+        let Some(sess) = ex.sess.as_ref() else { break };
+        if sess.dead {
+            break;
+        }
+        if sess.pending_action() {
+            let Some(c) = f.children.get(kids) else {
+                out.count("real:child-missing");
+                break;
+            };
+            kids += 1;
+            let l = format!("i ret {}.r{} {}", case_id, lines.len(), c.token());
+            ex.line(&l);
+            lines.push(l);
+            out.count("line:ret");
+            continue;
+        }
+        if !sess.running() {
+            complete = true;
+            break;
+        }
+        if steps >= max_steps {
+            break;
+        }
+        if danger(&sess.interp) {
+            out.count("case:stopped-before-big-memory");
+            break;
+        }
+        if eof_danger(&sess.interp) {
+            out.count("real:unchecked-eof-instruction");
+            break;
+        }
+        let op = sess.peek_opcode();
+        let resp = if op == Some(0x20) {
+            keccak_resp(sess)
+        } else if op == Some(0xec) && sess.interp.is_eof {
+            eofcreate_resp(sess)
+        } else {
+            match f.steps.get(steps) {
+                Some(r) => r.clone(),
+                None => {
+                    out.count("real:step-missing");
+                    break;
+                }
+            }
+        };
+        let l = format!("i s {}.{} {}", case_id, steps, resp.token());
+        let rep = ex.line(&l);
+        lines.push(l);
+        steps += 1;
+        if let Some(op) = op {
+            out.count(&format!("op:{:02x}", op));
+        }
+        if rep == "panic" {
+            out.count("reply:panic");
+        } else if rep == "oob-code" {
+            out.count("reply:oob-code");
+        }
+    }
+    // the replay has to take the road the real frame took
+    if complete {
+        if let (Some(sess), Some((res, gas))) = (ex.sess.as_ref(), f.end) {
+            if !f.is_create {
+                if sess.interp.instruction_result == res && sess.interp.gas.remaining() == gas && steps == f.steps.len() {
+                    out.count("real:replay-agrees");
+                } else {
+                    out.count("real:replay-diverged");
+                }
+            }
+        }
+    }
+}
+
+/// frames of real transactions (the state-test fixtures shipped with the code)
+fn gen_real(r: &mut Rng, txs: usize, out: &mut Out, lines: &mut Vec<String>) {
+    let root = std::path::Path::new("/repo/tests/pectra_devnet5/state_tests");
+    let mut files = vec![];
+    list_json(root, &mut files);
+    if files.is_empty() {
+        out.count("real:no-vectors");
+        return;
+    }
+    let mut done = 0;
+    let mut tries = 0;
+    while done < txs && tries < 4 * txs {
+        tries += 1;
+        let p = r.pick(&files).clone();
+        let Ok(bytes) = std::fs::read(&p) else { continue };
+        let Some(j) = parse_json(&bytes) else {
+            out.count("real:unparsed-file");
+            continue;
+        };
+        let Some(units) = j.obj() else { continue };
+        if units.is_empty() {
+            continue;
+        }
+        for _ in 0..3 {
+            let (_, unit) = &units[r.below(units.len() as u64) as usize];
+            let Some(posts) = unit.get("post").and_then(|p| p.obj()) else { continue };
+            if posts.is_empty() {
+                continue;
+            }
+            let (sname, ps) = &posts[r.below(posts.len() as u64) as usize];
+            let (Some(spec), Some(ps)) = (spec_by_name(sname), ps.arr()) else { continue };
+            if ps.is_empty() {
+                continue;
+            }
+            let post = &ps[r.below(ps.len() as u64) as usize];
+            let Some(frames) = record_tx(unit, spec, post) else {
+                out.count("real:tx-not-executed");
+                continue;
+            };
+            out.count("real:tx");
+            done += 1;
+            // the outermost frame is recorded last; at most 6 frames of one transaction
+            let n = frames.len();
+            let mut pick: Vec<usize> = (0..n).collect();
+            while pick.len() > 6 {
+                let i = r.below(pick.len() as u64 - 1) as usize;
+                pick.remove(i);
+            }
+            for i in pick {
+                gen_recorded(&frames[i], 300, out, lines);
+            }
+        }
+    }
 }
 
 fn gen(seed: u64, n: usize, out: &mut Out) -> Vec<String> {
@@ -1877,10 +3281,15 @@ fn gen(seed: u64, n: usize, out: &mut Out) -> Vec<String> {
     let thorough = n >= 4000;
     gen_opcode_spec_matrix(&mut r, out, &mut lines, if thorough { 1 } else { 12 });
     gen_truncated_push(&mut r, out, &mut lines, !thorough);
+    gen_real(&mut r, if thorough { 500 } else { 30 }, out, &mut lines);
     // DIFFICULTY under MERGE with `prevrandao = None`: the `unwrap()` of host_env.rs (excluded by `Env` validation)
     for _ in 0..n {
-        if r.chance(1, 8) {
-            let p = gen_eof_params(&mut r);
+        if r.chance(1, 5) {
+            let p = match r.below(5) {
+                0 | 1 => gen_eof_valid(&mut r),
+                2 | 3 => gen_eof_directed(&mut r),
+                _ => gen_eof_params(&mut r),
+            };
             out.count("case:eof");
             gen_case(&mut r, &p, 200, out, &mut lines);
             continue;
